@@ -177,8 +177,12 @@ EXPORT errno_t _mbsrtowcs_s_chk(size_t *restrict retvalp,
 #endif
         }
     }
-    if (unlikely((char *)dest == (char *)srcp ||
-                 (char *)dest == (char *)*srcp)) {
+    /* *srcp starts inside dest: the conversion would overwrite what it still
+       has to read */
+    if (unlikely(dest && ((char *)dest == (char *)srcp ||
+                          (*srcp >= (const char *)dest &&
+                           *srcp < (const char *)(dest + dmax))))) {
+        handle_werror(dest, dmax, "mbsrtowcs_s: overlapping objects", ESOVRLP);
         return RCNEGATE(ESOVRLP);
     }
 
